@@ -5,7 +5,7 @@ from functools import partial
 import logging
 import weakref
 
-from .common import MAX_TIMEOUT
+from .common import MAX_TIMEOUT, copy_exception
 from .wrap import CanCustomizeBind
 from .map import MapFuture
 from .helpers import executor_loop, ShutdownHelper
@@ -186,7 +186,17 @@ class ThrottleExecutor(CanCustomizeBind, Executor):
         return self._last_throttle
 
     def _do_submit(self, job):
-        delegate_future = self._delegate.submit(job.fn, *job.args, **job.kwargs)
+        try:
+            delegate_future = self._delegate.submit(job.fn, *job.args, **job.kwargs)
+        except Exception:  # pylint: disable=broad-except
+            # The delegate refused the callable (for instance, it has been shut
+            # down). That is the outcome of this future; it must not take down
+            # the thread serving all the others, nor keep its slot.
+            self._log.debug("Delegate refused %s", job, exc_info=True)
+            self._running_count.decr()
+            copy_exception(job.future)
+            self._event.set()
+            return
         self._log.debug("Submitted %s yielding %s", job, delegate_future)
 
         delegate_future.add_done_callback(
